@@ -137,7 +137,20 @@ def extract(configs, repo=REPO, log=None):
                 log("extracted %s in %.1fs" % (name, time.time() - t0))
         out[name] = fpath
     _gc(base)
+    if ran:
+        _gc_target(target_dir)
     return out, th, ran
+
+
+def _gc_target(td, limit_gb=10.0):
+    """The shared cargo target directory grows with every distinct repository path that is analysed (path dependencies are
+    separate units): start afresh beyond a size limit (only costs a rebuild of the dependencies, ~1 min)."""
+    try:
+        out = subprocess.run(["du", "-sk", td], stdout=subprocess.PIPE, text=True).stdout.split()
+        if out and int(out[0]) > limit_gb * 1024 * 1024:
+            shutil.rmtree(td, ignore_errors=True)
+    except Exception:
+        pass
 
 
 def _gc(keep):
